@@ -447,6 +447,8 @@ def snapshot(v, memo=None):
         c = v.__pyvc_snapshot__(memo)
     elif isinstance(v, tuple):
         c = tuple(snapshot(x, memo) for x in v)
+        if hasattr(v, "_fields"):  # a namedtuple (SWCNames, SWCTypes) stays one: its fields are read by name
+            c = type(v)(*c)
     elif isinstance(v, dict):
         c = {k: snapshot(x, memo) for k, x in v.items()}
     else:
